@@ -412,6 +412,28 @@ static int cell_is_numeric(const char* name) {
   }
   return 0;
 }
+/* VR_BIAS=<name suffix>:<k>: the values of plain / atomic loads and stores of every cell whose
+ * name ends with the suffix are printed PLUS k.  The queue harnesses store the payload word
+ * (v - k) for abstract item v, so that item k travels through the real code as a NULL payload
+ * while the model, to which payloads are opaque (compared for equality only), keeps seeing v. */
+static long cell_bias(const char* name) {
+  static const char* spec;
+  static size_t slen;
+  static long k;
+  if (!spec) {
+    spec = getenv("VR_BIAS");
+    if (!spec) spec = "";
+    const char* c = strrchr(spec, ':');
+    if (c) {
+      slen = (size_t)(c - spec);
+      k = atol(c + 1);
+    }
+  }
+  if (!k) return 0;
+  size_t l = strlen(name);
+  if (l < slen || memcmp(name + l - slen, spec, slen)) return 0;
+  return k;
+}
 static void fmtval(char* out, size_t n, uint64_t v) {
   if (v >= 4096 && !fmt_numeric) {
     for (int i = nobj - 1; i >= 0; i--)
@@ -459,7 +481,10 @@ static void dump_log(const char* status) {
     } else
       strcpy(cn, "-");
     fmt_numeric = e->cell >= 0 && cell_is_numeric(cells[e->cell].name);
-    fmtval(a, sizeof a, e->a);
+    long bias = e->cell >= 0 && (e->kind == K_R || e->kind == K_W || e->kind == K_LD || e->kind == K_ST)
+                    ? cell_bias(cells[e->cell].name) : 0;
+    if (bias) fmt_numeric = 1;
+    fmtval(a, sizeof a, e->a + (uint64_t)bias);
     fmtval(b, sizeof b, e->b);
     fmtval(c, sizeof c, e->c);
     fmtval(d, sizeof d, e->d);
